@@ -17,10 +17,17 @@ EXPLANATION = (
     "column; linear outputs are filled column-major (column loop outside the row loop); (R3) kernels write only their output; (R4) mask kernels compare the "
     "mask length with the indexed dimension before reading; (R5) the output allocated by each dispatch arm has the shape the index forms determine "
     "(`:` -> that dimension of the source, index vector -> its length, mask -> its number of true entries, scalar -> 1). Out-of-range numeric indices go "
-    "through nalgebra's checked indexing and `ix - 1` on usize (no clamping/unchecked access is searched for). Not decided: result kind conventions, as_index conversion."
-    ' (R6) the per-variant arms of Value::as_vecusize/as_usize keep their frozen sibling partition.'
+    "through nalgebra's checked indexing and `ix - 1` on usize (no clamping/unchecked access is searched for). Not decided: result kind conventions, numeric details of the index casts (`as usize`)."
+    ' (R6) the per-variant arms of Value::as_vecusize/as_usize keep their frozen sibling partition (arms classified by what they compute on a value of their variant - concrete evaluation over the storage-form / shape table, element kind abstracted - and by their text only where that evaluation does not apply).'
     ' (R2, extended) bulk slice writes of the output (`clone_from_slice`, `copy_from_slice`, `fill` ...) are modelled and reported next to the element-wise gather, as is a gather that only runs under a condition on the index values.'
     ' (R7) index operands keep their position: in each arm of subscript() the j-th index value handed to the access compiler is evaluated from the j-th subscript (or is IndexAll exactly where that subscript is `:`).'
+    ' (R8) index conversion is position-preserving: the read dispatcher and every helper it converts an index value with (as_index, as_usize, as_vecusize, as_vecbool, Matrix::as_vec, to_matrix, to_value, however they are split or named) '
+    'are evaluated concretely on their syntax trees over a finite table (every Subscript form tuple x index position x index-capable Value variant x Matrix storage form x shapes incl. non-square), with the index value filled by position tokens; '
+    'decided is the structural fact that the operand handed to the access compiler holds element i (column-major storage order) of the index value at position i, unaltered except for casts, in an index variant of the same class - '
+    'the behaviour of the kernels on that operand (R2) and the numeric result of the casts are not decided here.'
+    ' (R9) from the argument vector to the kernel: `<access compiler>.compile(args)` (front compilers, per-kind dispatcher functions, the arm that builds the kernel struct) is evaluated the same way for every argument-vector shape R8 observed '
+    'x every matrix source variant x storage form; decided is the structural fact that the kernel struct built holds, in its index fields in declaration / tuple order, the index operands in subscript order with exactly their element sequences '
+    '(an Err or panic is an error, not a wrong element) - which elements the kernel then reads through those fields is R2, not R9.'
 )
 
 FORMS = {"Scalar": "S", "Range": "R", "All": "A"}
@@ -520,6 +527,9 @@ def run(F, rep, tier):
     rep.floor("C03-R5", "access dispatch arms with an allocated output", n_arms, 300)
     rep.analysed = {"routing_arms": len(rt), "native_compilers": sorted(nfc_forms), "kernels": n_k, "dispatch_arms_with_output": n_arms}
     from rules.k2_targets import run_k2
-    run_k2(F, rep, "C03", "C03-R6")
+    from rules.c03_ixconv import behaviour_partition
+    run_k2(F, rep, "C03", "C03-R6", semantic=behaviour_partition(F))
     from rules.loopshape import subscript_operand_positions
     subscript_operand_positions(F, rep, "C03-R7", r"^subscript$", 12)
+    from rules.c03_ixconv import run_r8
+    run_r8(F, rep, "C03-R8", r"^subscript$", rule9="C03-R9")
